@@ -794,6 +794,11 @@ func c09(c *fw.Ctx) {
 	// only runs after the un-mirrored pass over garbage codewords has failed, so any weakness of that
 	// first pass (e.g. a Reed-Solomon decoder that "corrects" uncorrectable blocks) shows up as a
 	// misread of specific payloads at a rate of 1e-3..1e-4
+	nh := c.Pick(24, 400)
+	for i := 0; i < nh; i++ {
+		c.Run(fmt.Sprintf("oned180hints/%d", i), func(r *fw.Rec) { c09HintsCase(r, 60) })
+	}
+	c.Floor("oned_rot180_with_hints_equal", int64(nh*30))
 	nmir := c.Pick(60, 600)
 	for i := 0; i < nmir; i++ {
 		i := i
